@@ -403,6 +403,11 @@ SCRIPT_ALPHA = ["A", "B", "S0", "S1", "u0", "u1", "u2", "p0", "p1", "p2", "r", "
 TRACK_ALPHA = ["A", "u0", "u1", "u2", "p0", "p1", "p2", "r", "s", "QS", "QV", "QU", "QA", "g"]
 
 
+def track_alpha(cfg):
+    """no `g` for classes without an assertion list; no explicit push/pop when push is not implemented"""
+    return [a for a in TRACK_ALPHA if (a != "g" or cfg[6] == "1") and (a[0] not in "up" or cfg[8] == "1")]
+
+
 def instantiate(sym, pos):
     """Template symbol at position `pos` -> concrete token (fresh formulas are numbered by position)."""
     if sym == "A":
@@ -570,8 +575,35 @@ def last_stack_cmd(toks):
     return "none"
 
 
-def check_scripts(cases, res, use_lean=True):
+class Batch(object):
+    """Collects driver requests of several sub-checks so that ONE driver process answers them all."""
+
+    def __init__(self, res):
+        self.res = res
+        self.lines = []
+        self.pending = []           # (start, count, callback)
+
+    def add(self, lines, callback):
+        self.pending.append((len(self.lines), len(lines), callback))
+        self.lines.extend(lines)
+
+    def flush(self, use_lean=True):
+        model = None
+        if use_lean and self.lines:
+            try:
+                model = lean_run(self.lines)
+            except (common.LeanError, subprocess.TimeoutExpired) as e:
+                self.res.l.append(("driver C16 does not run", str(e)))
+        for (start, n, cb) in self.pending:
+            cb(model[start:start + n] if model is not None else None)
+        self.lines, self.pending = [], []
+
+
+def check_scripts(cases, res, use_lean=True, batch=None):
     """cases: list of (toks, legal).  K: model vs get_last_formula / get_strict_formula.  S: vs Oracle."""
+    own = batch is None
+    if own:
+        batch = Batch(res)
     P = py()
     lines, impl = [], []
     for toks, legal in cases:
@@ -582,12 +614,13 @@ def check_scripts(cases, res, use_lean=True):
         lines.append(("script " + body).rstrip())
         lines.append(("strict " + body).rstrip())
         lines.append(("spec " + body).rstrip())
-    model = None
-    if use_lean:
-        try:
-            model = lean_run(lines)
-        except (common.LeanError, subprocess.TimeoutExpired) as e:
-            res.l.append(("driver C16 does not run", str(e)))
+    batch.add(lines, lambda model: _compare_scripts(cases, impl, model, res))
+    if own:
+        batch.flush(use_lean)
+
+
+def _compare_scripts(cases, impl, model, res):
+    P = py()
     for n, (toks, legal) in enumerate(cases):
         a1, a2 = impl[n]
         body = " ".join(toks)
@@ -603,7 +636,7 @@ def check_scripts(cases, res, use_lean=True):
             res.nontrivial.append(digest("script " + body))
         res.count("script_len_%d" % len(toks) if len(toks) <= 7 else "script_len_8+")
         res.count("script_legal" if legal else "script_illegal_last")
-        if len(res.samples) < 3 and legal and o.removed and o.reused:
+        if len(res.samples) < 2 and legal and o.removed and o.reused and o.live() and len(o.goals()) > 1:
             res.samples.append({"kind": "script", "cmds": body, "implementation": a1, "spec": "ok %s | %s" % (ids(o.live()), goals_str(o.goals()))})
         spec_line = "ok %s | %s" % (ids(o.live()), goals_str(o.goals())) if legal else "illegal"
         if model is not None:
@@ -644,9 +677,12 @@ def op_kind(t):
             "q": {"s": "is_sat", "v": "is_valid", "u": "is_unsat", "a": "solve_assumptions"}.get(t[1:2], "?")}[t[0]]
 
 
-def check_tracks(cfg, who, cases, res, search, use_lean=True):
+def check_tracks(cfg, who, cases, res, search, use_lean=True, batch=None):
     """cases: list of (toks, legal).  K: raw state after every step vs model.  S (when `search`): reads and
     native checks vs Oracle."""
+    own = batch is None
+    if own:
+        batch = Batch(res)
     P = py()
     tracking = cfg[6] == "1"
     lines, impl = [], []
@@ -666,12 +702,14 @@ def check_tracks(cfg, who, cases, res, search, use_lean=True):
         impl.append((out, reads, final))
         lines.append(("track %s %s" % (cfg, " ".join(toks))).rstrip())
         lines.append(("specops " + " ".join(toks)).rstrip())
-    model = None
-    if use_lean:
-        try:
-            model = lean_run(lines)
-        except (common.LeanError, subprocess.TimeoutExpired) as e:
-            res.l.append(("driver C16 does not run", str(e)))
+    batch.add(lines, lambda model: _compare_tracks(cfg, who, cases, impl, model, res, search))
+    if own:
+        batch.flush(use_lean)
+
+
+def _compare_tracks(cfg, who, cases, impl, model, res, search):
+    P = py()
+    tracking = cfg[6] == "1"
     for n, (toks, legal) in enumerate(cases):
         out, reads, final = impl[n]
         body = " ".join(toks)
@@ -694,7 +732,7 @@ def check_tracks(cfg, who, cases, res, search, use_lean=True):
         if legal and (o.removed or oneshot_followed):
             res.nontrivial.append(digest("track %s %s" % (cfg, body)))
         res.count("track_%s_%s" % (who, "legal" if legal else "illegal_last"))
-        if len(res.samples) < 3 and legal and o.removed and oneshot_followed:
+        if len(res.samples) < 4 and legal and o.removed and oneshot_followed and o.live() and len(toks) > 3:
             res.samples.append({"kind": "track", "placement": cfg, "ops": body, "states": ";".join(out), "spec_live": ";".join(lives)})
         if model is not None:
             m, sp = model[2 * n], model[2 * n + 1]
@@ -746,38 +784,65 @@ def check_tracks(cfg, who, cases, res, search, use_lean=True):
 
 
 # --------------------------------------------------------------------------------------------- work units
-def work(task):
-    """One chunk (runs in-process or in a pool worker)."""
+def weight(task):
+    k = task["kind"]
+    if k == "script_enum":
+        return 3 * 13 ** (task["depth"] - len(task["prefix"]))
+    if k == "track_enum":
+        return 2 * 14 ** (task["depth"] - len(task["prefix"]))
+    return 25 * task["n"]
+
+
+def work(bundle):
+    """One bundle of sub-tasks (runs in-process or in a pool worker); one driver process answers all of it."""
     sys.setrecursionlimit(10000)
+    import random
     res = Result()
-    kind = task["kind"]
+    batch = Batch(res)
+    for task in bundle:
+        kind = task["kind"]
+        try:
+            if kind == "script_enum":
+                cases = [(list(t), l) for (t, l) in enum_sequences(SCRIPT_ALPHA, task["depth"], task["prefix"], False)]
+                check_scripts(cases, res, batch=batch)
+            elif kind == "track_enum":
+                alpha = track_alpha(task["cfg"])
+                if any(a not in alpha for a in task["prefix"]):
+                    continue
+                cases = [(list(t), l) for (t, l) in enum_sequences(alpha, task["depth"], task["prefix"], True)]
+                check_tracks(task["cfg"], task["who"], cases, res, task["search"], batch=batch)
+            elif kind == "script_random":
+                rng = random.Random(task["seed"])
+                cases = [random_script(rng, rng.randrange(8, 61), rng.random() < 0.08) for _ in range(task["n"])]
+                check_scripts(cases, res, batch=batch)
+            elif kind == "track_random":
+                rng = random.Random(task["seed"])
+                cfg = task["cfg"]
+                cases = [random_ops(rng, rng.randrange(8, 61), cfg[6] == "1", cfg[8] == "1", rng.random() < 0.08)
+                         for _ in range(task["n"])]
+                check_tracks(cfg, task["who"], cases, res, task["search"], batch=batch)
+            else:
+                raise ValueError(kind)
+        except Exception:
+            import traceback
+            res.l.append(("harness chunk crashed: %r" % (task,), traceback.format_exc()))
     try:
-        if kind == "script_enum":
-            cases = [(list(t), l) for (t, l) in enum_sequences(SCRIPT_ALPHA, task["depth"], task["prefix"], False)]
-            check_scripts(cases, res)
-        elif kind == "track_enum":
-            alpha = TRACK_ALPHA if task["cfg"][6] == "1" else [a for a in TRACK_ALPHA if a != "g"]
-            cases = [(list(t), l) for (t, l) in enum_sequences(alpha, task["depth"], task["prefix"], True)]
-            check_tracks(task["cfg"], task["who"], cases, res, task["search"])
-        elif kind == "script_random":
-            import random
-            rng = random.Random(task["seed"])
-            cases = [random_script(rng, rng.randrange(8, 61), rng.random() < 0.08) for _ in range(task["n"])]
-            check_scripts(cases, res)
-        elif kind == "track_random":
-            import random
-            rng = random.Random(task["seed"])
-            cfg = task["cfg"]
-            cases = [random_ops(rng, rng.randrange(8, 61), cfg[6] == "1", cfg[8] == "1", rng.random() < 0.08)
-                     for _ in range(task["n"])]
-            check_tracks(cfg, task["who"], cases, res, task["search"])
-        else:
-            raise ValueError(kind)
+        batch.flush()
     except Exception:
         import traceback
-        res.l.append(("harness chunk crashed: %r" % (task,), traceback.format_exc()))
+        res.l.append(("harness chunk crashed in comparison", traceback.format_exc()))
     res.states = set(hashlib.blake2b(s.encode(), digest_size=8).digest() for s in res.states)
     return res
+
+
+def pack(tasks, nbundles):
+    """Greedy balancing of the sub-tasks over `nbundles` bundles."""
+    bundles = [[0, []] for _ in range(max(1, nbundles))]
+    for t in sorted(tasks, key=weight, reverse=True):
+        b = min(bundles, key=lambda x: x[0])
+        b[0] += weight(t)
+        b[1].append(t)
+    return [b[1] for b in bundles if b[1]]
 
 
 def merge(ctx, res, agg):
@@ -874,6 +939,143 @@ def check_table(ctx, gen, tbl):
     return placements
 
 
+
+# --------------------------------------------------------------------------------------------- real wrappers
+NATIVE_CHILD = r"""
+import sys, json, warnings
+warnings.simplefilter("ignore")
+from pysmt.shortcuts import Symbol, Not, Solver
+syms = [Symbol("v%d" % i) for i in range(80)]
+form = {}
+for i, s in enumerate(syms):
+    form[2 * i] = s
+    form[2 * i + 1] = Not(s)
+fid = {v: k for k, v in form.items()}
+job = json.load(sys.stdin)
+out = {}
+for name in job["solvers"]:
+    res = []
+    try:
+        for toks in job["seqs"]:
+            obs = []
+            with Solver(name=name, logic="QF_LRA") as s:
+                for t in toks:
+                    try:
+                        k = t[0]
+                        if k == "a": s.add_assertion(form[int(t[1:])]); obs.append(None)
+                        elif k == "u": s.push(int(t[1:])); obs.append(None)
+                        elif k == "p": s.pop(int(t[1:])); obs.append(None)
+                        elif k == "r": s.reset_assertions(); obs.append(None)
+                        elif k == "s": obs.append(bool(s.solve()))
+                        elif k == "g":
+                            obs.append([fid.get(x, -1) for x in s.assertions] if hasattr(s, "assertions") else None)
+                        elif k == "q":
+                            f = form[int(t[2:])]
+                            q = t[1]
+                            if q == "s": obs.append(bool(s.is_sat(f)))
+                            elif q == "v": obs.append(bool(s.is_valid(f)))
+                            elif q == "u": obs.append(bool(s.is_unsat(f)))
+                            else: obs.append(bool(s.solve([f])))
+                    except Exception as e:
+                        obs.append("exc " + type(e).__name__)
+                        break
+            res.append(obs)
+        out[name] = res
+    except Exception as e:
+        out[name] = "unavailable: %s %s" % (type(e).__name__, str(e)[:200])
+json.dump(out, sys.stdout)
+"""
+
+
+def consistent(lits):
+    s = set(lits)
+    return not any((x ^ 1) in s for x in s)
+
+
+def native_check(ctx):
+    """Secondary run (thorough tier): the same kind of sequences on the REAL Z3Solver and CVC5Solver, under the
+    tooling interpreter that has the native modules.  Formulas are literals, so the truth of every query is known:
+    sat iff no atom occurs with both polarities among the live assertions (+ the query's formula)."""
+    import json
+    import shutil
+    exe = shutil.which("python3-vt")
+    if exe is None:
+        ctx.extra["native_wrappers"] = "python3-vt not available; skipped"
+        return
+    rng = ctx.rng
+    seqs = []
+    for _ in range(400):
+        n = rng.randrange(4, 25)
+        toks, nlev = [], 1
+        for i in range(n):
+            r = rng.random()
+            lit = 2 * rng.randrange(4) + rng.randrange(2)
+            if r < 0.25:
+                toks.append("a%d" % lit)
+            elif r < 0.37:
+                k = rng.randrange(3)
+                toks.append("u%d" % k)
+                nlev += k
+            elif r < 0.50:
+                k = rng.randrange(min(3, nlev))
+                toks.append("p%d" % k)
+                nlev -= k
+            elif r < 0.55:
+                toks.append("r")
+                nlev = 1
+            elif r < 0.70:
+                toks.append("s")
+            elif r < 0.92:
+                q = rng.choice("svua")
+                toks.append("q%s%d" % (q, 2 * rng.randrange(4) + (0 if q == "v" else rng.randrange(2))))
+            else:
+                toks.append("g")
+        seqs.append(toks)
+    env = dict(os.environ, PYTHONPATH=common.REPO)
+    try:
+        p = subprocess.run([exe, "-c", NATIVE_CHILD], input=json.dumps({"solvers": ["z3", "cvc5"], "seqs": seqs}),
+                           capture_output=True, text=True, timeout=600, env=env, cwd="/tmp")
+        out = json.loads(p.stdout)
+    except Exception as e:
+        ctx.extra["native_wrappers"] = "child failed: %r" % (e,)
+        return
+    summary = {}
+    for name, res in out.items():
+        if isinstance(res, str):
+            summary[name] = res
+            continue
+        nq = 0
+        for toks, obs in zip(seqs, res):
+            o = Oracle()
+            for i, t in enumerate(toks):
+                tt = t if t[0] in "aupr" else "c"
+                o.step(tt)
+                if i >= len(obs):
+                    break
+                live = o.live()
+                exp = None
+                if t == "s":
+                    exp = consistent(live)
+                elif t == "g":
+                    exp = live if obs[i] is not None else None
+                elif t[0] == "q":
+                    f = int(t[2:])
+                    exp = {"s": consistent(live + [f]), "a": consistent(live + [f]), "u": not consistent(live + [f]),
+                           "v": not consistent(live + [f + 1])}[t[1]]
+                if t[0] in "sqg":
+                    nq += 1
+                ctx.evaluations += 1
+                if obs[i] != exp:
+                    prev = next((op_kind(x) for x in reversed(toks[:i]) if x[0] == "q" and x[1] != "a"), "none")
+                    ctx.report_s({"oracle": "assert-stack", "part": "native", "solver": name, "call": op_kind(t),
+                                  "pending_from": prev},
+                                 "real %s wrapper: step %d `%s` of `%s` answers %r, expected %r (live assertions %s)"
+                                 % (name, i, t, " ".join(toks), obs[i], exp, ids(live)),
+                                 {"kind": "native", "solver": name, "ops": " ".join(toks), "step": i})
+                    break
+        summary[name] = "%d sequences, %d answers compared" % (len(res), nq)
+    ctx.extra["native_wrappers"] = summary
+
 # --------------------------------------------------------------------------------------------- run
 def plan(ctx, placements):
     quick = ctx.tier == "quick"
@@ -897,18 +1099,19 @@ def plan(ctx, placements):
         if p["concrete"] and p["usesBaseIsSat"]:
             by_cfg.setdefault(cfg_bits(p), []).append(n.rsplit(".", 1)[1])
     tdepth = 4 if quick else 5
+    zdepth = 5 if quick else 6          # the placement of Z3Solver / MathSAT5Solver / BoolectorSolver goes one deeper
     for cfg, who in sorted(by_cfg.items()):
         w = "+".join(who)
-        alpha = TRACK_ALPHA if cfg[6] == "1" else [a for a in TRACK_ALPHA if a != "g"]
-        deep = (not quick) and "Z3Solver" in who
+        alpha = track_alpha(cfg)
+        deep = "Z3Solver" in who
         for a in alpha:
-            if a.startswith("p") and a != "p0":
-                continue
             if deep:
                 for b in alpha:
-                    tasks.append({"kind": "track_enum", "cfg": cfg, "who": w, "depth": 6, "prefix": [a, b], "search": True})
+                    tasks.append({"kind": "track_enum", "cfg": cfg, "who": w, "depth": zdepth, "prefix": [a, b], "search": True})
             else:
                 tasks.append({"kind": "track_enum", "cfg": cfg, "who": w, "depth": tdepth, "prefix": [a], "search": True})
+        # sequences of length 1 (and, for 2-symbol prefixes, those whose second call is already illegal)
+        tasks.append({"kind": "track_enum", "cfg": cfg, "who": w, "depth": 2 if deep else 1, "prefix": [], "search": True})
         for j in range(2 if quick else 8):
             tasks.append({"kind": "track_random", "cfg": cfg, "who": w, "seed": sd + 100 + j,
                           "n": 400 if quick else 2500, "search": True})
@@ -925,12 +1128,9 @@ def plan(ctx, placements):
         tasks.append({"kind": "track_random", "cfg": cfg, "who": "synthetic", "seed": sd + 7, "n": 250 if quick else 2000,
                       "search": False})
         if not quick:
-            alpha = TRACK_ALPHA if cfg[6] == "1" else [a for a in TRACK_ALPHA if a != "g"]
-            for a in alpha:
-                if a.startswith("p") and a != "p0":
-                    continue
+            for a in track_alpha(cfg):
                 tasks.append({"kind": "track_enum", "cfg": cfg, "who": "synthetic", "depth": 4, "prefix": [a], "search": False})
-    return tasks, {"script_depth": sdepth, "track_depth": tdepth, "placements_searched": {c: w for c, w in by_cfg.items()}}
+    return tasks, {"script_depth": sdepth, "track_depth": tdepth, "z3_depth": zdepth, "placements_searched": {c: w for c, w in by_cfg.items()}}
 
 
 def run(ctx):
@@ -944,19 +1144,22 @@ def run(ctx):
     tasks, info = plan(ctx, placements)
     agg = {}
     t0 = time.time()
+    bundles = pack(tasks, ctx.workers * (2 if ctx.tier == "quick" else 12))
     if ctx.workers > 1:
         import multiprocessing
         with multiprocessing.get_context("fork").Pool(ctx.workers) as pool:
-            for res in pool.imap_unordered(work, tasks, chunksize=1):
+            for res in pool.imap_unordered(work, bundles, chunksize=1):
                 merge(ctx, res, agg)
     else:
-        for t in tasks:
-            merge(ctx, work(t), agg)
+        for b in bundles:
+            merge(ctx, work(b), agg)
+    ctx.extra["driver_processes"] = len(bundles) + 1
+    if ctx.tier == "thorough":
+        native_check(ctx)
     ctx.extra["exhaustive"] = True
     ctx.extra["exhaustive_scope"] = ("scripts: every sequence over the 13-symbol alphabet up to length %d; solvers: every sequence "
                                      "over the 14-symbol alphabet up to length %d (Z3Solver placement: %d) for each placement in "
-                                     "`placements_searched`" % (info["script_depth"], info["track_depth"],
-                                                                 info["track_depth"] if ctx.tier == "quick" else 6))
+                                     "`placements_searched`" % (info["script_depth"], info["track_depth"], info["z3_depth"]))
     ctx.extra["placements_searched"] = info["placements_searched"]
     ctx.extra["transitions"] = agg.get("steps", 0)
     ctx.extra["states"] = len(agg.get("states", ()))
